@@ -142,6 +142,8 @@ def real_thread_runs(rep, tier):
 def run(tier, seed):
     rep = check.run_configs('C03', plan(tier), seed, 150 if tier == 'quick' else 3000)
     real_thread_runs(rep, tier)
+    if tier == 'thorough':      # all interleavings (sleep sets) of the smallest configurations
+        rep.merge(check.run_por('C03', [C.cfg(1, [], ['ok'], 1), C.cfg(1, [], ['ok'], 2), C.cfg(1, [], ['notpair'], 2), C.cfg(2, C.CHAIN2, ['ok', 'ok'], 1), C.cfg(2, CYC2SOFT, ['ok', 'ok'], 1, cyclic=True)], seed))
     return rep
 
 
